@@ -166,10 +166,7 @@ theorem readBAI_total' (s : Bytes) : (readBAI s).isPanic = false := by
   · apply bind_total _ _ (rdI32_total s1)
     intro v _
     obtain ⟨n, s2⟩ := v
-    simp only
-    split
-    · rfl
-    · exact readIndexBody_total _ _ _
+    exact readIndexBody_total _ _ _
 
 theorem take?_length (k : Nat) (s a b : Bytes) (h : take? k s = ok (a, b)) : a.length = k := by
   unfold take? at h
@@ -177,6 +174,35 @@ theorem take?_length (k : Nat) (s a b : Bytes) (h : take? k s = ok (a, b)) : a.l
   · cases h
   · cases h
     rw [List.length_take]; omega
+
+theorem readNames_total (s : Bytes) : (readNames s).isPanic = false := by
+  unfold readNames
+  apply bind_total _ _ (rdI32_total s)
+  intro v _
+  obtain ⟨lnm, s4⟩ := v
+  simp only
+  split
+  · rfl
+  · split
+    · rfl
+    · rename_i hl hz
+      rw [bind_ok _ _ _ (makeLen_pos _ lnm hl)]
+      apply bind_total _ _ (take?_total _ s4)
+      intro v hv
+      obtain ⟨names, s5⟩ := v
+      simp only
+      have hlen := take?_length _ _ _ _ hv
+      have hidx : (indexInt "tabix.readTabixHeader:names[len(names)-1]" names ((names.length : Int) - 1)).isPanic = false := by
+        unfold indexInt
+        rw [if_neg (by omega)]
+        apply index_total
+        omega
+      apply bind_total _ _ hidx
+      intro last _
+      split
+      · rfl
+      · rw [bind_ok _ _ _ (sliceTo_of_le _ names _ (by omega))]
+        rfl
 
 theorem readTabix_total' (s : Bytes) : (readTabix s).isPanic = false := by
   unfold readTabix
@@ -190,35 +216,14 @@ theorem readTabix_total' (s : Bytes) : (readTabix s).isPanic = false := by
     intro v _
     obtain ⟨n, s2⟩ := v
     simp only
+    apply bind_total _ _ (skip_total 24 s2)
+    intro s3 _
+    apply bind_total _ _ (readNames_total s3)
+    intro v _
+    obtain ⟨nNames, lnm, s4⟩ := v
+    simp only
     split
     · rfl
-    · apply bind_total _ _ (skip_total 24 s2)
-      intro s3 _
-      apply bind_total _ _ (rdI32_total s3)
-      intro v _
-      obtain ⟨lnm, s4⟩ := v
-      simp only
-      split
-      · rfl
-      · rename_i hl
-        rw [bind_ok _ _ _ (makeLen_pos _ lnm (by omega))]
-        apply bind_total _ _ (take?_total _ s4)
-        intro v hv
-        obtain ⟨names, s5⟩ := v
-        simp only
-        have hlen := take?_length _ _ _ _ hv
-        have hidx : (indexInt "tabix.readTabixHeader:names[len(names)-1]" names ((names.length : Int) - 1)).isPanic = false := by
-          unfold indexInt
-          rw [if_neg (by omega)]
-          apply index_total
-          omega
-        apply bind_total _ _ hidx
-        intro last _
-        split
-        · rfl
-        · rw [bind_ok _ _ _ (sliceTo_of_le _ names _ (by omega))]
-          split
-          · rfl
-          · exact readIndexBody_total _ _ _
+    · exact readIndexBody_total _ _ _
 
 end Hts.Model.Decoders
